@@ -3,5 +3,5 @@ CONSTANTS
   MaxLen = 5
   MaxWS = 1
   Emit = FALSE
-INVARIANTS TypeOK CompletionAccepts PlainInStringStutters WhitespaceStutters DeadIsAbsorbing NoBadPop
+INVARIANTS TypeOK CompletionAccepts PlainInStringStutters WhitespaceStutters DeadIsAbsorbing NoBadPop InsertionsAreDead
 CHECK_DEADLOCK FALSE
